@@ -255,7 +255,7 @@ type LogBackendMap = map[string]*configpb.LogBackend
 func BuildLogBackendMap(lbs *configpb.LogBackendSet) (LogBackendMap, error) {
 	lbm := make(LogBackendMap)
 	specs := make(map[string]bool)
-	for _, be := range lbs.Backend {
+	for _, be := range lbs.GetBackend() {
 		if len(be.Name) == 0 {
 			return nil, fmt.Errorf("empty backend name: %v", be)
 		}
@@ -345,7 +345,7 @@ func ValidateLogMultiConfig(cfg *configpb.LogMultiConfig) (LogBackendMap, error)
 
 	// Check that logs all reference a defined backend.
 	logIDMap := make(map[string]bool)
-	for _, logCfg := range cfg.LogConfigs.Config {
+	for _, logCfg := range cfg.GetLogConfigs().GetConfig() {
 		if _, ok := backendMap[logCfg.LogBackendName]; !ok {
 			return nil, fmt.Errorf("log config: references undefined backend: %s: %v", logCfg.LogBackendName, logCfg)
 		}
